@@ -208,7 +208,7 @@ def check_chain(acc, w, spec):
         else:
             acc.inc("probe_" + pname.split(":")[0])
     # history shape: the prefix of the chain is bound to a local and *forced* (manifested) before the last layer is
-    # added to that same value - what the prefix learnt about itself (assertions checked, fields cached) must not
+    # added to that same value (comparing it with a copy reads every visible field and runs its assertions) - what the prefix learnt about itself (assertions checked, fields cached) must not
     # leak into the extended object, whose `self` is a different object
     if len(layers_spec) >= 2 and len(spec) == 3:
         nodes = [layer_node(k, i, a) for i, (k, a) in enumerate(layers_spec)]
@@ -216,8 +216,8 @@ def check_chain(acc, w, spec):
         for style in ("+", "objext"):
             ext = ("bin", "+", V("pre"), nodes[-1]) if style == "+" else ("objext", V("pre"), nodes[-1])
             ast = ("local", [("bind", "pre", pre)],
-                   ("local", [("bind", "forced", prog.STD("toString", V("pre"))), ("bind", "o", ext)],
-                    ("if", ("bin", ">=", prog.STD("length", V("forced")), N(0)), V("o"), ("lit", "null"))))
+                   ("local", [("bind", "forced", ("bin", "==", V("pre"), ("objext", V("pre"), ("obj", [])))), ("bind", "o", ext)],
+                    ("if", ("bin", "||", V("forced"), ("un", "!", V("forced"))), V("o"), ("lit", "null"))))
             try:
                 ref = interp.Interp().run(ast)
             except (interp.Abstain, RecursionError):
